@@ -927,6 +927,46 @@ class Builder:
                     edits.append(Edit(a + mm.start(), eo + 1, [Seg(fnname + "(", "repo", fn=qual)]))
                     edits.append(Edit(ec, cp + 1, [Seg(")", "repo", fn=qual)]))
                     self.count("R22")
+            if rule[0] == "R23":
+                # byte chains: HEAD.into_iter() / HEAD.iter()[.copied()] .chain(A1) .. .chain(An) [.cloned()] [.collect()]
+                #   -> HEAD.vx_bytes().vx_then(A1)...vx_then(An)[.vx_collect()]   (trusted model: the bytes yielded, in order)
+                # a byte-string literal is, by definition, a reference to the array of its bytes (plain ASCII literals only)
+                for lm in re.finditer(r'(?<![A-Za-z0-9_])b"([ !#-\[\]-~]*)"', src[a:b]):
+                    if m[a + lm.start()] != "b":
+                        continue  # inside a comment or another literal
+                    arr = ", ".join("%du8" % ord(ch) for ch in lm.group(1))
+                    edits.append(Edit(a + lm.start(), a + lm.end(), [Seg("(&[%s])" % arr, "repo", fn=qual)]))
+                    self.count("R23.literal")
+                hx = re.compile(r"\.\s*(?:into_iter|iter)\s*\(\s*\)(?:\s*\.\s*(?:copied|cloned)\s*\(\s*\))?(?=\s*\.\s*chain\s*\()")
+                for mm in hx.finditer(m[a:b]):
+                    edits.append(Edit(a + mm.start(), a + mm.end(), [Seg(".vx_bytes()", "repo", fn=qual)]))
+                    pos = a + mm.end()
+                    while True:
+                        cm = re.match(r"\s*\.\s*chain\s*\(", m[pos:b])
+                        if not cm:
+                            break
+                        op = pos + cm.end() - 1
+                        cp = rs.match_close(m, op)
+                        edits.append(Edit(pos + cm.start(), op + 1, [Seg(".vx_then(", "repo", fn=qual)]))
+                        arg = m[op + 1:cp]
+                        am = re.match(r"^(\s*)(.+?)\s*\.\s*iter\s*\(\s*\)\s*\.\s*(?:copied|cloned)\s*\(\s*\)\s*$", arg, re.S)
+                        om = re.match(r"^(\s*)(?:std\s*::\s*|core\s*::\s*)?iter\s*::\s*once\s*\(", arg)
+                        if am and "chain" not in arg:
+                            st = op + 1 + len(am.group(1))
+                            edits.append(Edit(st, st, [Seg("vx_ref_src(", "repo", fn=qual)]))
+                            edits.append(Edit(st + len(am.group(2)), cp, [Seg(")", "repo", fn=qual)]))
+                        elif om:
+                            st = op + 1 + len(om.group(1))
+                            edits.append(Edit(st, op + 1 + om.end(), [Seg("vx_once(", "repo", fn=qual)]))
+                        pos = cp + 1
+                        dm = re.match(r"\s*\.\s*(?:copied|cloned)\s*\(\s*\)", m[pos:b])
+                        if dm:
+                            edits.append(Edit(pos, pos + dm.end(), []))
+                            pos += dm.end()
+                    km = re.match(r"\s*\.\s*collect\s*(?:::\s*<[^()]*>)?\s*\(\s*\)", m[pos:b])
+                    if km:
+                        edits.append(Edit(pos, pos + km.end(), [Seg(".vx_collect()", "repo", fn=qual)]))
+                    self.count("R23")
             if rule[0] == "R18":
                 # `E.then(|| BODY)` -> `(if E { Some(BODY) } else { None })`  (the definition of bool::then)
                 for mm in re.finditer(r"\.\s*then\s*\(\s*\|\s*\|", m[a:b]):
